@@ -103,17 +103,18 @@ def compareLots (l r : Lot) : Int :=
 def stripAnnotations (strip : Comm → Comm) (b : Balance) : Balance :=
   (b.map (fun a => { a with comm := strip a.comm })).foldl Balance.addAmt []
 
-/-! ### value_t::is_less_than / is_greater_than, BALANCE row (value.cc 965-975, 1111-1121)
+/-! ### value_t::is_less_than / is_greater_than, BALANCE row (value.cc)
 
-`bal < v` is `Value.lt (.bal b) v` of Model/Value.lean (`Value.lt.ltAll`: stops
-at the first component with `c >= v`, where `amount >= value` is
-`!(value > amount)` and throws for two different commodities).
-is_greater_than's BALANCE row walks the map with `c <= v`, i.e. `!(v < c)`;
-`value < amount` never throws (different commodities are ordered by symbol,
-value.cc 949-955).  NB in value expressions `a > b` is boost's `b < a`
-(less_than_comparable1 beats the member template), so `balance > amount`
-written by a user is `amount < balance` = `to_amount()` of the balance;
-is_greater_than is reached only from C++ callers comparing with a non-value_t. -/
+`bal < v` is `Value.lt (.bal b) v` of Model/Value.lean: `Value.lt.ltAll` over
+`Value.ltWalkOrder b` — the hash map as it comes on the pinned tree, `sorted_amounts`
+since 89c0598 (`Gen.ltBalanceSorted`).  It stops at the first component with `c >= v`,
+where `amount >= value` is `!(value > amount)` and throws for two different commodities.
+is_greater_than's BALANCE row stops at the first `c <= v`, i.e. `!(v < c)`;
+`value < amount` never throws (different commodities are ordered by symbol), so that row
+is order-free whatever order it walks (`gtAll` takes the walk order as given).
+NB in value expressions `a > b` is boost's `b < a` (less_than_comparable1 beats the member
+template), so `balance > amount` written by a user is `amount < balance` = `to_amount()`
+of the balance; is_greater_than is reached only from C++ callers comparing with a non-value_t. -/
 
 /-- value_t::is_greater_than, BALANCE row against INTEGER / AMOUNT. -/
 def gtAll (x : Balance) (v : Value) : Res Bool :=
